@@ -86,9 +86,9 @@ WORDS = {
 PARAMSETS = {
     # RankSmall<NUM_U32S, COUNTER_WIDTH>: words per block, words per sub-block, sub-blocks per block
     '2_9': {'BBS': '512', 'BPS': '8388608', 'N': '2', 'CW': '9', 'WPB': '8', 'WPS': '1', 'NSUB': '8'},
-    '1_9': {'ONESL': '0x40201', 'MSBSL': '0x4020100', 'FMASK': '0x1FF', 'SUBBITS': '128', 'BBS': '512', 'BPS': '8388608', 'N': '1', 'CW': '9', 'WPB': '8', 'WPS': '2', 'NSUB': '4'},
-    '1_10': {'ONESL': '0x100401', 'MSBSL': '0x20080200', 'FMASK': '0x3FF', 'SUBBITS': '256', 'BBS': '1024', 'BPS': '4194304', 'N': '1', 'CW': '10', 'WPB': '16', 'WPS': '4', 'NSUB': '4'},
-    '1_11': {'ONESL': '0x400801', 'MSBSL': '0x100200400', 'FMASK': '0x7FF', 'SUBBITS': '512', 'BBS': '2048', 'BPS': '2097152', 'N': '1', 'CW': '11', 'WPB': '32', 'WPS': '8', 'NSUB': '4'},
+    '1_9': {'SUB2': '256', 'SUB3': '384', 'ONESL': '0x40201', 'MSBSL': '0x4020100', 'FMASK': '0x1FF', 'SUBBITS': '128', 'BBS': '512', 'BPS': '8388608', 'N': '1', 'CW': '9', 'WPB': '8', 'WPS': '2', 'NSUB': '4'},
+    '1_10': {'SUB2': '512', 'SUB3': '768', 'ONESL': '0x100401', 'MSBSL': '0x20080200', 'FMASK': '0x3FF', 'SUBBITS': '256', 'BBS': '1024', 'BPS': '4194304', 'N': '1', 'CW': '10', 'WPB': '16', 'WPS': '4', 'NSUB': '4'},
+    '1_11': {'SUB2': '1024', 'SUB3': '1536', 'ONESL': '0x400801', 'MSBSL': '0x100200400', 'FMASK': '0x7FF', 'SUBBITS': '512', 'BBS': '2048', 'BPS': '2097152', 'N': '1', 'CW': '11', 'WPB': '32', 'WPS': '8', 'NSUB': '4'},
     '3_13': {'BBS': '8192', 'BPS': '524288', 'N': '3', 'CW': '13', 'WPB': '128', 'WPS': '16', 'NSUB': '8'},
     # the four adaptive selection structures share one look-up (unit select.lookup)
     'adapt': {'P_EXPECT': r'/fn log2_ones_per_sub32/', 'P_STRUCT': 'SelectAdapt', 'P_MODULE': 'select_adapt', 'P_FN': 'select_unchecked', 'P_HINTED': 'select_hinted',
